@@ -135,13 +135,26 @@ func corpusFiles() []*descriptorpb.FileDescriptorProto {
 	dep.EnumType = append(dep.EnumType, &descriptorpb.EnumDescriptorProto{Name: proto.String("DepEnum"), Value: []*descriptorpb.EnumValueDescriptorProto{
 		{Name: proto.String("DEP_ZERO"), Number: proto.Int32(0)}, {Name: proto.String("DEP_ONE"), Number: proto.Int32(1)}, {Name: proto.String("DEP_NEG"), Number: proto.Int32(-1)}}})
 	files = append(files, dep)
+	// a file that declares only an enum (its own Go package): it must still be answered with a source file
+	kf := newFile("corpus/kinds/kinds.proto", "corpus.kinds", freshModule+"/corpus/kinds")
+	kf.EnumType = append(kf.EnumType, &descriptorpb.EnumDescriptorProto{Name: proto.String("Kind"), Value: []*descriptorpb.EnumValueDescriptorProto{
+		{Name: proto.String("KIND_NONE"), Number: proto.Int32(0)}, {Name: proto.String("KIND_SOME"), Number: proto.Int32(4)}}})
+	files = append(files, kf)
 	// a second file of the same Go package that imports the first (its init must not depend on what else is generated)
-	dep2 := newFile("corpus/dep/dep2.proto", "corpus.dep", freshModule+"/corpus/dep", "corpus/dep/dep.proto")
+	dep2 := newFile("corpus/dep/dep2.proto", "corpus.dep", freshModule+"/corpus/dep", "corpus/dep/dep.proto", "corpus/kinds/kinds.proto")
 	d2 := newMsg("Dep2", "corpus.dep.Dep2")
 	d2.field("dep", 1, tMsg, ".corpus.dep.Dep")
 	d2.field("kind", 2, tEnum, ".corpus.dep.DepEnum")
 	d2.repeated("more", 3, tMsg, ".corpus.dep.Dep", nil)
+	// declared out of number order, with references to several distinct types (the dependency index table lists them
+	// in declaration order)
+	d2.field("late_kind", 9, tEnum, ".corpus.kinds.Kind")
+	d2.field("early_names", 4, tMsg, ".corpus.dep.Names")
+	d2.mapField("kinds_by_name", 7, descriptorpb.FieldDescriptorProto_TYPE_STRING, tEnum, ".corpus.kinds.Kind")
 	dep2.MessageType = append(dep2.MessageType, d2.m)
+	dep2.Service = append(dep2.Service, &descriptorpb.ServiceDescriptorProto{Name: proto.String("DepService"), Method: []*descriptorpb.MethodDescriptorProto{
+		{Name: proto.String("Get"), InputType: proto.String(".corpus.dep.Dep"), OutputType: proto.String(".corpus.dep.Dep2")},
+		{Name: proto.String("Put"), InputType: proto.String(".corpus.dep.Dep2"), OutputType: proto.String(".corpus.dep.Names")}}})
 	files = append(files, dep2)
 
 	// --- scalars: kinds x {singular, packed, unpacked}, tag widths 1..3
